@@ -687,10 +687,15 @@ class NUMERIC(FieldType):
                             "decimal_places on the field")
 
         try:
-            x = self.numtype(x)
+            n = self.numtype(x)
         except OverflowError:
             raise ValueError("Value %r overflowed number type %r"
                              % (x, self.numtype))
+        if (self.numtype is int and not dc and isinstance(x, float)
+            and n != x):
+            # int() would silently drop the fraction
+            raise ValueError("%r is not a whole number (integer field)" % x)
+        x = n
 
         if x < self.min_value or x > self.max_value:
             raise ValueError("Numeric field value %s out of range [%s, %s]"
